@@ -126,7 +126,7 @@ def oracle(case, impl):
     want_line = "SIP/2.0 %d" % code + (" " + reason if reason else "")
     if line != want_line:
         return ["status line %r, expected %r" % (line, want_line)]
-    got_vias = [v for (n, v) in hdrs if n == "Via"]
+    got_vias = [x.strip() for (n, v) in hdrs if n == "Via" for x in v.split(",")]      # one line per value or comma separated: equivalent
     if len(got_vias) != len(vias):
         return ["%d Via values in the response, %d in the request" % (len(got_vias), len(vias))]
     # lower Vias unchanged
